@@ -522,6 +522,10 @@ def asm_state_items(asm):
     for k in sorted(asm._power_delivered):
         items.append(('pd.' + k, float(asm._power_delivered[k])))
     items.append(('region', int(asm.active_region_idx)))
+    # energy-balance tallies are reported in the output tables
+    for ri, rg in enumerate(asm.region):
+        items.append((f'ebal.{ri}.power', float(rg.ebal['power'])))
+        items.append((f'ebal.{ri}.duct', np.array(rg.ebal['duct'], copy=True)))
     return items
 
 
